@@ -128,8 +128,11 @@ fn read_prefixes(
     Ok(())
 }
 
-/// Apply every BGP message in `buf` to the mirror; returns the number of frames.
+/// Apply every BGP message in `buf` (one flush) to the mirror; returns the number of frames.
+/// A key announced twice with different contents within one flush gets the value `amb`: the two
+/// UPDATEs come out of one `drain_messages` in hash-map order, so the survivor is not determined.
 fn apply_bytes(buf: &[u8], addpath: bool, m: &mut Mirror) -> Result<usize, &'static str> {
+    let mut written: BTreeMap<Key, (Term, Term)> = BTreeMap::new();
     let mut pos = 0usize;
     let mut frames = 0usize;
     while pos < buf.len() {
@@ -160,6 +163,12 @@ fn apply_bytes(buf: &[u8], addpath: bool, m: &mut Mirror) -> Result<usize, &'sta
         let al = u16::from_be_bytes([body[2 + wl], body[3 + wl]]) as usize;
         if body.len() < 4 + wl + al {
             return Err("bad-attr-length");
+        }
+        if wl == 0 && al == 0 && body.len() == 4 {
+            // End-of-RIB: what was buffered before it (the initial dump) is ordered before
+            // everything after it
+            written.clear();
+            continue;
         }
         let mut gone: Vec<Key> = Vec::new();
         read_prefixes(&body[2..2 + wl], addpath, false, &mut gone)?;
@@ -235,7 +244,16 @@ fn apply_bytes(buf: &[u8], addpath: bool, m: &mut Mirror) -> Result<usize, &'sta
             at.extend(attrs.into_iter().map(|x| x.1));
             let at = Term::list(at);
             for k in reach {
-                m.insert(k, (nh.clone(), at.clone()));
+                let v = (nh.clone(), at.clone());
+                match written.get(&k) {
+                    Some(w) if *w != v => {
+                        m.insert(k, (Term::atom("amb"), Term::atom("amb")));
+                    }
+                    _ => {
+                        written.insert(k, v.clone());
+                        m.insert(k, v);
+                    }
+                }
             }
         }
     }
@@ -245,6 +263,15 @@ fn apply_bytes(buf: &[u8], addpath: bool, m: &mut Mirror) -> Result<usize, &'sta
 fn mirror_t(tag: &str, m: &Mirror) -> Term {
     let mut v = vec![Term::atom(tag)];
     for ((a, l, pid), (nh, at)) in m {
+        if nh.as_atom() == Some("amb") {
+            v.push(Term::list(vec![
+                Term::nat(*a),
+                Term::nat(*l),
+                Term::nat(*pid),
+                Term::atom("amb"),
+            ]));
+            continue;
+        }
         v.push(Term::list(vec![
             Term::nat(*a),
             Term::nat(*l),
@@ -308,10 +335,15 @@ fn parse_case(t: &Term) -> Option<Case> {
         };
         let l = nat_small(l)?;
         let s = nat_small(s)? as usize;
-        if l > 32 || s >= k {
+        let a = nat32(a)?;
+        // canonical prefixes only (no host bits), all different
+        if l > 32 || s >= k || (l < 32 && (a as u64) % (1u64 << (32 - l)) != 0) {
             return None;
         }
-        pf.push((Ipv4Addr::from(nat32(a)?), l as u8, s));
+        if pf.iter().any(|(x, y, _)| *x == Ipv4Addr::from(a) && *y == l as u8) {
+            return None;
+        }
+        pf.push((Ipv4Addr::from(a), l as u8, s));
     }
     let asets: Vec<_> = asets
         .tagged("asets")?
@@ -348,6 +380,7 @@ enum Op {
     Ann(usize, usize, u32, usize, bgp::Nexthop),
     Wd(usize, usize, u32),
     Down(usize),
+    Llgr(usize),
     Reset(Option<usize>),
     Deliver(usize),
     Flush,
@@ -383,6 +416,14 @@ fn parse_op(c: &Case, t: &Term, pre: bool) -> Option<Op> {
     }
     if pre {
         return None;
+    }
+    if let Some([s]) = t.tagged("llgr") {
+        // start of the LLGR stale period of a peer source (never the local/kernel singletons)
+        let i = idx(s, c.srcs.len())?;
+        if c.srcs[i].is_local() || c.srcs[i].is_kernel() {
+            return None;
+        }
+        return Some(Op::Llgr(i));
     }
     if let Some([k]) = t.tagged("reset") {
         if k.as_atom() == Some("none") {
@@ -540,6 +581,9 @@ async fn run(c: &Case) -> String {
         Op::Down(s) => {
             tables.drop_families(c.srcs[*s].remote_addr, &[Family::IPV4]);
         }
+        Op::Llgr(s) => {
+            tables.mark_llgr_stale(c.srcs[*s].remote_addr, &[Family::IPV4]);
+        }
         _ => {}
     };
     for o in &c.pre {
@@ -556,6 +600,7 @@ async fn run(c: &Case) -> String {
     let mut flushes = vec![Term::atom("flushes")];
     let mut owner: FnvHashMap<u32, packet::Nlri> = FnvHashMap::default();
     let mut reuse = 0u64;
+    let mut overtaken = 0u64;
     let mut policy = c.policy0.clone();
     let mut err: Option<&'static str> = None;
 
@@ -565,6 +610,7 @@ async fn run(c: &Case) -> String {
         n: usize,
         owner: &mut FnvHashMap<u32, packet::Nlri>,
         reuse: &mut u64,
+        overtaken: &mut u64,
     ) {
         for _ in 0..n {
             let Some(e) = q.pop_front() else { break };
@@ -578,6 +624,10 @@ async fn run(c: &Case) -> String {
                     a.handle_prefix_update(u);
                 }
                 Ev::SoftReset => {
+                    // the refresh walks the RIB as it is now: are changes still queued behind it?
+                    if q.iter().any(|e| matches!(e, Ev::Change(_))) {
+                        *overtaken += 1;
+                    }
                     for family in a.pending.keys().cloned().collect::<Vec<_>>() {
                         a.do_route_refresh(family).await;
                     }
@@ -593,7 +643,7 @@ async fn run(c: &Case) -> String {
                 rib_op(&op);
                 pump(&mut a, &mut q, false);
             }
-            Op::Down(_) => {
+            Op::Down(_) | Op::Llgr(_) => {
                 rib_op(&op);
                 pump(&mut a, &mut q, true);
             }
@@ -606,7 +656,9 @@ async fn run(c: &Case) -> String {
                 tables.soft_reset_out(c.remote_addr);
                 pump(&mut a, &mut q, false);
             }
-            Op::Deliver(n) => deliver(&mut a, &mut q, *n, &mut owner, &mut reuse).await,
+            Op::Deliver(n) => {
+                deliver(&mut a, &mut q, *n, &mut owner, &mut reuse, &mut overtaken).await
+            }
             Op::Flush => {
                 let bytes = flush(&mut a);
                 if let Err(e) = apply_bytes(&bytes, addpath, &mut mirror) {
@@ -618,7 +670,7 @@ async fn run(c: &Case) -> String {
     }
     // quiesce: everything delivered, everything flushed
     let n = q.len();
-    deliver(&mut a, &mut q, n, &mut owner, &mut reuse).await;
+    deliver(&mut a, &mut q, n, &mut owner, &mut reuse, &mut overtaken).await;
     let bytes = flush(&mut a);
     if let Err(e) = apply_bytes(&bytes, addpath, &mut mirror) {
         err = Some(e);
@@ -639,6 +691,7 @@ async fn run(c: &Case) -> String {
         "obs",
         vec![
             Term::tag("reuse", vec![Term::nat(reuse)]),
+            Term::tag("overtaken", vec![Term::nat(overtaken)]),
             Term::list(flushes),
             mirror_t("final", &mirror),
             mirror_t("dump", &dump),
